@@ -130,6 +130,11 @@ func solveOne(file string, cfg solveCfg, cover bool) (res, solver string, secs f
 		want = "sat"
 	}
 	r, text, _ := runSolver(context.Background(), solvers[0], file, cfg.fastSecs)
+	if cover && r != "unsat" {
+		// vacuity guard: only a refutation of the precondition matters; "sat", "unknown" and a
+		// timeout all mean the solver could not show the precondition contradictory
+		return r, solvers[0].name, time.Since(t0).Seconds(), text
+	}
 	if r == want && !cfg.confirm {
 		return r, solvers[0].name, time.Since(t0).Seconds(), text
 	}
